@@ -43,6 +43,7 @@ structure Runner where
   closed : Bool := false     -- unload() ran: llama == nil, Options == nil
   closeCount : Nat := 0      -- number of llama.Close() calls
   loading : Bool := false
+  pingOk : Bool := true      -- what llama.Ping currently answers (environment-controlled)
   refMuHeld : Bool := false  -- refMu held by the load goroutine across WaitUntilRunning
   holders : List ReqId := [] -- ghost
 deriving Repr, DecidableEq
@@ -144,15 +145,16 @@ inductive Act
   | loadDone (r : Rid) (ok : Bool)         -- WaitUntilRunning returned
   | timerFire (r : Rid)
   | explicitUnload (m : ModelId)           -- Scheduler.expireRunner
+  | setPing (r : Rid) (ok : Bool)          -- the runner's health check starts answering ok / failing
   -- processPending
   | pTake
   | pDrainUnloaded
   | pLookup (fit : Fit)
-  | pNeedsReload (ping : Bool)
+  | pNeedsReload
   | pUse
   | pExpire
   | pWaitUnload
-  | pLoad (ok : Bool) (opts : Nat)         -- newServerFn result; opts actually used
+  | pLoad (ok : Bool)                      -- newServerFn result
   -- processCompleted
   | cTakeFinished
   | cFin
@@ -255,12 +257,14 @@ def step (v : Variant) (s : State) : Act → Option State
             | some vic => some { s with ppc := .expire q vic }
             | none => some s
     | _ => none
-  | .pNeedsReload ping =>
+  | .setPing r ok =>
+    if r < s.nRunners then some (setRunner s r { s.runners r with pingOk := ok }) else none
+  | .pNeedsReload =>
     match s.ppc with
     | .needsReload q r =>
       let x := s.runners r
       if x.refMuHeld then none
-      else if x.closed ∨ x.opts ≠ (s.reqs q).opts ∨ ¬ ping then some { s with ppc := .expire q r }
+      else if x.closed ∨ x.opts ≠ (s.reqs q).opts ∨ ¬ x.pingOk then some { s with ppc := .expire q r }
       else some { s with ppc := .use q r }
     | _ => none
   | .pUse =>
@@ -287,14 +291,14 @@ def step (v : Variant) (s : State) : Act → Option State
     match s.ppc with
     | .waitUnload q => if s.unloadedQ > 0 then some { s with unloadedQ := s.unloadedQ - 1, ppc := .eval q } else none
     | _ => none
-  | .pLoad ok opts =>
+  | .pLoad ok =>
     match s.ppc with
     | .load q =>
       if ¬ ok then some { replyErr s q with ppc := .idle }
       else
         let r := s.nRunners
         let rq := s.reqs q
-        let x : Runner := { model := rq.model, opts := opts, refCount := 1, loading := true, refMuHeld := true,
+        let x : Runner := { model := rq.model, opts := rq.opts, refCount := 1, loading := true, refMuHeld := true,
                             session := (rq.session).getD s.defaultSession }
         some { s with nRunners := r + 1, runners := upd s.runners r x,
                       loaded := (rq.model, r) :: removeKey s.loaded rq.model,
